@@ -496,35 +496,25 @@ impl<'tcx> TyGenContext<'_, 'tcx> {
                     return_type => unreachable!("AST/HIR variant {:?} unknown.", return_type),
                 };
 
-                let layout = match ok {
-                    SuccessType::Unit => crate::js::layout::unit_size_alignment(),
+                // The buffer receives a `DiplomatResult<T, E>`: a `repr(C)` union of both payloads followed by the `is_ok` flag.
+                // The union is as large as the larger payload rounded up to the stricter of the two alignments, and the flag
+                // (which `DiplomatReceiveBuf` reads from the last byte) comes right after it. Unit arms are zero-sized.
+                let zst = std::alloc::Layout::new::<()>();
+                let ok_layout = match ok {
+                    SuccessType::Unit | SuccessType::Write => zst,
                     SuccessType::OutType(ref o) => {
                         crate::js::layout::type_size_alignment(o, self.tcx)
                     }
-                    SuccessType::Write => match return_type {
-                        ReturnType::Fallible(_, ref err) if err.is_some() => {
-                            crate::js::layout::type_size_alignment(&err.clone().unwrap(), self.tcx)
-                        }
-                        ReturnType::Fallible(_, None) | ReturnType::Nullable(_) => {
-                            crate::js::layout::unit_size_alignment()
-                        }
-                        _ => unreachable!("AST/HIR variant {:?} unknown.", return_type),
-                    },
                     _ => unreachable!("AST/HIR variant {:?} unknown.", return_type),
                 };
-                // Add size for checking whether or not we're a pass/fail result. And we make sure to see if our error type is bigger, so if we need to add extra width based on that:
-                let size = std::cmp::max(
-                    layout.size(),
-                    match return_type {
-                        // We already account for an error in the Write match up above:
-                        ReturnType::Fallible(_, e) if e.is_some() => {
-                            crate::js::layout::type_size_alignment(&e.clone().unwrap(), self.tcx)
-                                .size()
-                        }
-                        _ => 0,
-                    },
-                ) + 1;
-                let align = layout.align();
+                let err_layout = match return_type {
+                    ReturnType::Fallible(_, Some(e)) => {
+                        crate::js::layout::type_size_alignment(e, self.tcx)
+                    }
+                    _ => zst,
+                };
+                let align = std::cmp::max(ok_layout.align(), err_layout.align());
+                let size = std::cmp::max(ok_layout.size(), err_layout.size()).next_multiple_of(align) + 1;
 
                 if requires_buf {
                     method_info.alloc_expressions.push(
